@@ -244,6 +244,7 @@ def run(facts, rep, tier, ctx):
     n = memory_listing_rules(facts, rep, ws, D)
     rep.floor("in-memory listing obligations", n, 5)
     c09.listing_rules(facts, rep, ws, "R05.5")
+    c09.relative_join_rules(facts, rep, ws, "R05.5j")
     c09.resolver_rules(facts, rep, ws, "R05.5r")
     c07.delegation(facts, rep, ws, "R05.5a", D)
     # R05.6
@@ -261,6 +262,10 @@ def run(facts, rep, tier, ctx):
     for o in scratch.obligations:
         if o["rule"] == "R02.1" and ("open_file" in o["key"] or "read_dir" in o["key"]):
             rep.ob("R05.6", o["fn"], o["key"].split("|")[2], o["ok"], o["detail"], o["loc"])
+    # which std call each PhysicalFS observer makes (metadata follows links like open/read_dir/exists do: lstat would make
+    # a linked directory listable but "a file")
+    from .. import physrules
+    physrules.table_o_shape(facts, rep, "R05.6p", ws)
     # R05.7 embedded
     if any(b.impl and b.impl["self_ty"].startswith("impls::embedded::") for b in facts.bodies):
         from . import c18
@@ -278,8 +283,10 @@ def run(facts, rep, tier, ctx):
         k = child_path_rules(facts, A, wa, D) + is_kind_rules(facts, A, wa, D) + walk_rules(facts, A, wa, D) + \
             memory_listing_rules(facts, A, wa, D)
         k += c09.listing_rules(facts, A, wa, "R05.5")
+        k += c09.relative_join_rules(facts, A, wa, "R05.5j")
         k += c09.resolver_rules(facts, A, wa, "R05.5r")
         k += c07.delegation(facts, A, wa, "R05.5a", D)
+        k += physrules.table_o_shape(facts, A, "R05.6p", wa)
         scratch = Report("xa")
         c01.table_m(facts, scratch, "M", "Mk", self_ty=wa.memory, trait="AsyncFileSystem",
                     ops_filter=("read_dir", "open_file") + c01.TWO_PATH_OPS)
